@@ -131,6 +131,15 @@ def correspond(ctx):
 
 def oracle(ctx):
     res = ctx.res
+    # (T1) control flow of main.rs (continue / break / return / exit / `?` / dry-run guards / error pushes): inventory regenerated
+    # from the source vs the reviewed one — the loop policy the run-level models assume
+    import sys as _sys, json as _json
+    _rc, _o, _e = core.sh([_sys.executable, os.path.join(core.VERIF, 'tools', 'flow_sites.py'), core.REPO, os.path.join(core.BUILD, 'flow_sites.json')])
+    _have = {(x['fn'], x['kind'], x['stmt'], x['n']) for x in (_json.load(open(os.path.join(core.BUILD, 'flow_sites.json'))) if _rc == 0 else [])}
+    _spec = {(x['fn'], x['kind'], x['stmt'], x['n']) for x in _json.load(open(os.path.join(core.VERIF, 'spec', 'flow_sites.json')))}
+    _diff = sorted(_have ^ _spec)
+    res.extra_obligations.append(('control-flow inventory of main.rs matches the reviewed one (spec/flow_sites.json)', _rc == 0 and not _diff,
+                                  'statements that differ: ' + '; '.join(f'{d[0]}: {d[2][:70]}' for d in _diff[:6])))
     pairs = getattr(ctx, '_c18', None)
     if pairs is None:
         rnd = ctx.rnd
